@@ -41,7 +41,7 @@ def bc_reference(r, name, nondim):
     return {'tidal': (X.ZERO, X.ZERO, (2 * l + 1) / R), 'loading': (-(2 * l + 1) * rho / 3, X.ZERO, (2 * l + 1) / R), 'free': (X.ZERO, X.ZERO, X.ZERO)}[name.lower()]
 
 
-def assembled(chk, repo, rule_surface, rule_iface, rule_love, rule_intact=None, rule_bounds=None, where='TidalPy/RadialSolver/solver.pyx'):
+def assembled(chk, repo, rule_surface, rule_iface, rule_love, rule_intact=None, rule_bounds=None, where='TidalPy/RadialSolver/solver.pyx', rule_span=None):
     d = X.Decider(seed=chk.seed + 81, k=2)
     seqs = layer_sequences(chk.tier)
     types = ('tidal', 'loading', 'free')
@@ -129,6 +129,35 @@ def assembled(chk, repo, rule_surface, rule_iface, rule_love, rule_intact=None, 
                     bad.append(f'{tn}: {nm} is not read from the surface row of its own solution type')
         if rule_love is not None: chk.ob(rule_love, f'layers {lab}: (k, h, l) of every requested type == (y5 - 1, g y1, g y3) of the top row of that type\'s assembled solution', not bad, '; '.join(bad[:4]), where,
                key=f'{rule_love}|{lab}', method='whole-function symbolic execution of cf_radial_solver + GF(p^2) PIT')
+        if rule_span is not None:
+            # in every layer the assembled vector of the components that layer carries is a linear combination of that layer's integrated solutions (same slice)
+            from ..oracles import ts72
+            bad = []
+            for li, kd in enumerate(kinds):
+                kind2 = ('solid' if is_solid(kd) else 'liquid', kd.endswith('static'))
+                lay = ts72.LAYOUT[kind2]; nsol = ts72.NUM_SOLS[kind2]; nys = len(lay)
+                carried = [nm for nm in lay if nm in NAMES]         # y7 of a static liquid is not part of the output
+                sl_local = ns - 1; sl = li * ns + sl_local
+                for t, tn in enumerate(types):
+                    yv = row(r, sl, t, nt)
+                    if any(yv[nm] is None for nm in carried):
+                        bad.append(f'layer {li} ({kd}), {tn}: component(s) {[nm for nm in carried if yv[nm] is None]} not defined'); continue
+                    pt = d.points[0]
+                    cols = []
+                    for s_ in range(nsol):
+                        cols.append([pt.ev(X.atom(f'Y[L{li}][S{s_}][slice {sl_local}][{lay.index(nm)}]re') + X.I * X.atom(f'Y[L{li}][S{s_}][slice {sl_local}][{lay.index(nm)}]im')) for nm in carried])
+                    target = [pt.ev(yv[nm]) for nm in carried]
+                    M = [[cols[s_][i] for s_ in range(nsol)] + [target[i]] for i in range(len(carried))]
+                    if X.rank_gf(M) != X.rank_gf([rw[:nsol] for rw in M]):
+                        bad.append(f'layer {li} ({kd}), {tn}: the assembled ({", ".join(carried)}) is not a combination of the layer\'s integrated solutions')
+                    # dynamic liquid: y3 is reconstructed from the others
+                    if kd == 'liquid':
+                        w = r.sym['w']; rr = r.inputs['radius'][sl]; rho_ = dens[sl]; g_ = grav[sl]
+                        want = (rho_ * g_ * yv['y1'] - yv['y2'] - rho_ * yv['y5']) / (w * w * rho_ * rr)
+                        if yv['y3'] is None or not d.equal(yv['y3'], want):
+                            bad.append(f'layer {li} ({kd}), {tn}: y3 is not (rho g y1 - y2 - rho y5)/(w^2 rho r)')
+            chk.ob(rule_span, f'layers {lab}: in every layer the assembled solution is a combination of that layer\'s integrated solutions in every component the layer carries (y3 of dynamic liquids from the elimination formula)',
+                   not bad, '; '.join(bad[:4]), where, key=f'{rule_span}|{lab}', method='whole-function symbolic execution + exact rank over GF(p^2)')
         if rule_bounds is not None:
             oob = [o for o in r.oob]
             chk.ob(rule_bounds, f'layers {lab}: no access outside any stack array, heap block or caller array during the whole solve', not oob,
